@@ -374,7 +374,7 @@ func VerifH_AllOfDoc() {
 		}
 		var got []string
 		for _, ln := range verifSchemaSig(root, &ut.Schema) {
-			if !strings.Contains(ln, " usesType ") {
+			if !strings.Contains(ln, " usesType ") && !strings.Contains(ln, " example=") {
 				got = append(got, ln)
 			}
 		}
